@@ -78,14 +78,42 @@ def stream_writer():
     return w, tr, loop
 
 
+def spoil(obj, rng):
+    """a copy of `obj` whose LAST integer-typed field (tagged ones preferred: they are written last)
+    is out of range, so that encoding fails after most of the message was produced"""
+    import dataclasses
+    fs = dataclasses.fields(obj)
+    cands = [f for f in fs if f.metadata.get("kafka_type") in ("int8", "int16", "int32", "int64", "uint16", "uint32")]
+    if not cands:
+        for f in reversed(fs):
+            v = getattr(obj, f.name)
+            if dataclasses.is_dataclass(v) and not isinstance(v, type):
+                sub = spoil(v, rng)
+                if sub is not None:
+                    return dataclasses.replace(obj, **{f.name: sub})
+            if isinstance(v, tuple) and v and dataclasses.is_dataclass(v[-1]):
+                sub = spoil(v[-1], rng)
+                if sub is not None:
+                    return dataclasses.replace(obj, **{f.name: v[:-1] + (sub,)})
+        return None
+    tagged = [f for f in cands if "tag" in f.metadata]
+    f = max(tagged, key=lambda f: f.metadata["tag"]) if tagged else cands[-1]
+    return dataclasses.replace(obj, **{f.name: 2**70})
+
+
 def run(ctx):
     from kio.serial import entity_reader, entity_writer
+
+    nspoiled = [0]
 
     rng = random.Random(ctx.seed)
     cl = codec.Classes()
     cl.check_driver()
     thorough = ctx.tier == "thorough"
+    import dataclasses as _dc
     payload_idx = [i for i in range(len(cl)) if cl.cls(i).__type__.name in ("request", "response")]
+    # payload classes with several tagged fields (staged separately by the writer) are over-sampled
+    multi_tag = [i for i in payload_idx if sum(1 for f in _dc.fields(cl.cls(i)) if "tag" in f.metadata) >= 2]
     nseq = 400 if thorough else 80
     fails, lines, meta = [], [], []
     nmsgs = 0
@@ -95,7 +123,7 @@ def run(ctx):
         k = rng.choice([1, 2, 3, 5])
         msgs = []
         for _ in range(k):
-            pi = rng.choice(payload_idx)
+            pi = rng.choice(multi_tag) if (multi_tag and rng.random() < 0.35) else rng.choice(payload_idx)
             pc = cl.cls(pi)
             hc = pc.__header_schema__
             hi = cl.keys.index(f"{hc.__module__}:{hc.__qualname__}")
@@ -111,6 +139,15 @@ def run(ctx):
         try:
             for i, a, obj in msgs:
                 c = cl.cls(i)
+                # a message that cannot be encoded (a value out of range in its last field), staged to a
+                # throw-away buffer as an application would before sending: it must leave no trace
+                if rng.random() < 0.5:
+                    bad = spoil(obj, rng)
+                    if bad is not None:
+                        try:
+                            entity_writer(c)(io.BytesIO(), bad)
+                        except Exception:  # noqa: BLE001
+                            nspoiled[0] += 1
                 entity_writer(c)(sink1, obj)
                 entity_writer(c)(sink2, obj)
                 entity_writer(c)(sw, obj)
@@ -185,7 +222,7 @@ def run(ctx):
         "rule": "case = a sequence of 1–5 (header, payload) messages of random payload classes with random leading "
                 "and trailing bytes, written to BytesIO / write-only sink / asyncio.StreamWriter and read back "
                 "from a read-only source; non-trivial message iff a non-default field",
-        "messages": nmsgs, "sink_source_kinds": kinds_used,
+        "messages": nmsgs, "failed_encodes_interleaved": nspoiled[0], "sink_source_kinds": kinds_used,
         "disagreements": len(disagreements), "property_failures_on_code": len(fails),
         "samples": [{"classes": [cl.keys[i] for i, _, _ in msgs][:4]}],
     })
